@@ -97,6 +97,11 @@ class BBAN(common.Base):
     def __init__(self, country_code: str, value: str) -> None:
         self.country_code = country_code
 
+    def __getnewargs__(self) -> tuple[str, str]:
+        # ``__new__`` takes the country code in addition to the value, which the default copy and
+        # pickle protocol of ``str`` does not supply.
+        return (self.country_code, str(self))
+
     @classmethod
     def from_components(cls, country_code: str, **values: str) -> BBAN:
         """Generate a BBAN from its national components.
